@@ -211,8 +211,8 @@ func computeMaxMinPriorityDiff(vals *ValidatorSet) int64 {
 	if vals.IsNilOrEmpty() {
 		panic("empty validator set")
 	}
-	max := int64(math.MaxInt64)
-	min := int64(math.MinInt64)
+	max := int64(math.MinInt64)
+	min := int64(math.MaxInt64)
 	for _, v := range vals.Validators {
 		if v.ProposerPriority < min {
 			min = v.ProposerPriority
